@@ -1,7 +1,3 @@
 #!/bin/sh
 # Builds the framework from files on disk only (offline).
-set -e
-cd "$(dirname "$0")"
-export CARGO_NET_OFFLINE=true
-(cd lean && lake build)
-(cd harness && cargo build --offline --workspace)
+cd "$(dirname "$0")" && exec python3 tools/setup.py
